@@ -470,12 +470,14 @@ class SimulationAlgorithm(BaseSimulationAlgorithm):
         df_ind = df.copy()
 
         if self.visit_type == VisitType.DATAFRAME:
-            return (
+            dict_timepoints = (
                 self.param_study["df_visits"]
                 .groupby("ID")["TIME"]
                 .apply(list)
                 .to_dict()
             )
+            # individual parameters are indexed by str(ID)
+            return {str(id_): ages for id_, ages in dict_timepoints.items()}
 
         df_ind["AGE_AT_BASELINE"] = (
             df_ind["tau"].apply(lambda x: x.numpy())
